@@ -135,7 +135,35 @@ def run(chk):
     # 3. rich recorded runs: loop traces + oracle -------------------------------------------------------
     nrich = 4000 if thorough else 700
     recs = [rr.run_record(rnd, 100000 + i) for i in range(nrich)]
+    # a majority shape plus a few rarer members whose varying punctuation includes extra-letter characters, with a Size that
+    # makes extraction start from a sample (the rare members arrive as failures of the first expressions)
+    family = []          # judged by the final oracle only (their loop traces range over 50+ examples: too large for the trace spec)
+    import string as _string
+    from tdda.rexpy.rexpy import Size as _Size
+    for j in range(240 if thorough else 36):
+        low = _string.ascii_lowercase
+        common_p = rnd.sample('!#@~', 2)
+        ordinary = ['%s%s%s%s%s' % (a, b, common_p[(i_ + k_) % 2], b, a) for i_, a in enumerate(rnd.sample(low, 8)) for k_, b in enumerate(rnd.sample(low, 6))]
+        rare_p = rnd.sample('.$%&*+-_=;', 6)
+        rare = ['q%s%sz%s' % (rnd.choice(low), p_, rnd.choice(low)) for p_ in rare_p]
+        exs = ordinary + rare
+        if j % 3 == 0:
+            rnd.shuffle(exs)
+        sizekw = {'do_all': 10, 'do_all_exceptions': 10, 'max_sampled_attempts': 2}
+        kw = {'extra_letters': rnd.choice(['_.', '.-', '_.-', '-_']), 'dialect': rnd.choice(rx.DIALECTS), 'seed': j % 8,
+              'size': _Size(**sizekw)}
+        if rnd.random() < 0.3:
+            kw['tag'] = True
+        family.append(rr.run_record(rnd, 100000 + nrich + j, examples=exs, kw=kw, sizekw=sizekw))
     finals, rejected = rr.validate_loops(chk, recs)
+    for rec in family:
+        chk.coverage['replayed_cases'] += 1
+        chk.count_case(('family', json.dumps(rec['examples']), json.dumps(rec['kw'], sort_keys=True)), nontrivial=True)
+        if rec['raised'] != 'none':
+            chk.violation({'kind': 'rex-raises', 'clause': 'NoError', 'error': rec['raised'].split(':')[0]},
+                          {'examples': rec['examples'], 'options': rec['kw'], 'size': rec['size'], 'raised': rec['raised']})
+        elif rec['unmatched']:
+            classify_unmatched(chk, rec)
     sampled = 0
     for rec in recs:
         rec['loop_final'] = finals.get(rec['tid'])
